@@ -483,6 +483,14 @@ def xop_pairs(node, op):
     _, _, pairs, deep = op
     viol = []
     stats = {"pairs": 0, "equal": 0, "equal_distinct": 0}
+
+    class _V(list):
+        def append(self, d):
+            if "a" in d and "b" in d and d["a"] in node.slots and d["b"] in node.slots:
+                d["types"] = type(node.slots[d["a"]]).__name__ + "/" + type(node.slots[d["b"]]).__name__
+            list.append(self, d)
+
+    viol = _V()
     for a_s, b_s in pairs:
         if a_s not in node.slots or b_s not in node.slots:
             continue
@@ -517,6 +525,23 @@ def xop_pairs(node, op):
                 for f in _interchangeable(a, b):
                     viol.append({"clause": "E5-" + f, "a": a_s, "b": b_s})
     return {"viol": viol, "stats": stats}
+
+
+def xop_expecteq(node, op):
+    """['expecteq', None, a, b, clause]: a and b must compare equal (both orders), with
+    equal hash and repr (used for objects that crossed processes and came back)."""
+    _, _, a_s, b_s, clause = op
+    a, b = node.get(a_s), node.get(b_s)
+    viol = []
+    t = type(a).__name__ + "/" + type(b).__name__
+    if not _eq(a, b) or not _eq(b, a):
+        viol.append({"clause": clause + "-equal", "a": a_s, "b": b_s, "types": t})
+    else:
+        if hash(a) != hash(b):
+            viol.append({"clause": clause + "-hash", "a": a_s, "b": b_s, "types": t})
+        if repr(a) != repr(b):
+            viol.append({"clause": clause + "-repr", "a": a_s, "b": b_s, "types": t})
+    return {"viol": viol}
 
 
 def xop_triples(node, op):
@@ -560,6 +585,7 @@ def xop_roundtrip(node, op):
         b = eval(repr(a), dict(node.evalns))
     node.put(out, b)
     viol = []
+    tn = type(a).__name__ + "/" + type(b).__name__
     if not _eq(b, a) or not _eq(a, b):
         viol.append({"clause": "E7-" + how + "-equal", "a": slot, "b": out})
     else:
@@ -569,4 +595,6 @@ def xop_roundtrip(node, op):
             viol.append({"clause": "E7-" + how + "-repr", "a": slot, "b": out})
         for f in _interchangeable(a, b):
             viol.append({"clause": "E7-" + how + "-" + f, "a": slot, "b": out})
+    for v in viol:
+        v["types"] = tn
     return {"viol": viol}
